@@ -53,8 +53,7 @@ PROP = dict(
         "EnvOK (explicit hypotheses of every theorem): well-formed dictionary values (one character per syllable, closed under "
         "add / update / flush / remove), an exact match is also a prefix match, the engines behave as C03 proves for the engine "
         "model, the frequency estimator returns; OpValid: candidates_per_page > 0 (the C layer validates 1..10)",
-        "Covered: the theorems do not yet cover jump_to_*_selection_point under an open phrase list (correspondence and campaigns "
-        "only there); SymWF: the loaded symbol tables are well formed (leaf categories named, table indices in range)",
+        "SymWF: the loaded symbol tables are well formed (leaf categories named, table indices in range)",
     ],
 )
 
@@ -77,14 +76,19 @@ MANIFEST = dict(
          "some buffered syllable has no word under an active strategy; C01_full (no exclusion) is refuted by the F02 and F03 "
          "histories (C01_full_refuted, f03_history_panics, f02_is_known); C01_plain_histories: histories of key events (any code / "
          "modifiers), select(n), start/cancel selecting, commit, clear, ack, layout switches and learn_phrase need no exclusion "
-         "at all. Covered by the theorems: every key in all four states (Selecting with phrase lists, special-symbol lists and "
-         "symbol tables: paging, Down/Space = PhraseSelector::next, j/k = retarget, digits = Selecting::select - a chosen phrase is "
-         "a valid selection) and every other entry point. PARTIAL: not yet covered by a theorem (predicate Covered; C01_target is "
-         "the statement without it): jump_to_{first,last,next,prev}_selection_point while a phrase candidate list is open. The proof "
-         "attempt in exactly that corner uncovered a genuine defect, finding F41, confirmed as an abort on the real C API and repaired "
+         "at all (the four jump_to_*_selection_point calls included). Covered by the theorems: every key in all four states (Selecting "
+         "with phrase lists, special-symbol lists and symbol tables: paging, Down/Space = PhraseSelector::next, j/k = retarget, "
+         "digits = Selecting::select - a chosen phrase is a valid selection) and EVERY other entry point in every state, incl. "
+         "jump_to_{first,last,next,prev}_selection_point while a phrase candidate list is open (C01_target_holds, jump_never_panics; "
+         "Proofs/C01Jump.lean: the open selector's invariant carries the Anchor of its range at the position the list was opened "
+         "at, so re-init and next/prev_selection_point stay on the run of syllables; the former coverage predicate Covered is "
+         "deleted) and the option / layout / dictionary calls with their final revalidate_selecting (C07's F32 repair). "
+         "selector_loops_terminate / init_terminates: fuel sufficiency of every selector loop with its progress argument (each "
+         "round shortens the range / moves one symbol towards an end of the buffer; next wraps at most once). The first proof "
+         "attempt in the jump corner uncovered a genuine defect, finding F41, confirmed as an abort on the real C API and repaired "
          "(f41_history_repaired: with the simple engine chewing_cand_list_first made the single-word list swallow the following "
-         "non-syllable symbol; choosing a candidate recorded an invalid selection and the next ChewingEngine conversion aborted); "
-         "the C glue capi/src/io.rs. Those rest on the tie: per-operation correspondence of model and real Editor from its own "
+         "non-syllable symbol; choosing a candidate recorded an invalid selection and the next ChewingEngine conversion aborted). "
+         "Outside the theorems: the C glue capi/src/io.rs. The theorems rest on the tie: per-operation correspondence of model and real Editor from its own "
          "pre-state (panic outcomes included, 0 differences), the editor-harness oracle (any panic / hang of an operation or "
          "accessor) and a C-API crash/hang campaign in forked workers with a per-call watchdog (all 256 key codes, options, 17 "
          "keyboard types, 3 engines mid-composition, candidate and user-phrase calls with hostile arguments, every getter after "
